@@ -29,7 +29,8 @@ end IDual
 
 /-- interval forward-mode differentiation; only smooth rational operators -/
 def Alg.idual (n : Nat) : Alg IDual where
-  ofItv x := if x.isEmpty then none else some (IDual.const n x)
+  -- an ill-formed constant such as [3,1] denotes the empty set although it is not `Itv.empty`
+  ofItv x := if x.isEmpty || !x.WF then none else some (IDual.const n x)
   zero := IDual.const n (Itv.point 0)
   add a b := IDual.ok ⟨Itv.add a.v b.v, IDual.lin (Itv.point 1) a (Itv.point 1) b⟩
   sub a b := IDual.ok ⟨Itv.sub a.v b.v, IDual.lin (Itv.point 1) a (Itv.point (-1)) b⟩
